@@ -39,13 +39,14 @@ func init() {
 	registry["C14"] = func() *Property {
 		return &Property{
 			ID:          "C14",
-			Explanation: "A typestate of strings, decided statically. A styled text is in normal form when it consists of plain characters and line feeds with no attribute active, and of units `openers, one character, reset`; in such a text every character carries exactly the attributes of its own unit and nothing is active at a line feed or at the end, and concatenating, repeating, splitting or cutting normal-form texts at line feeds keeps the form. Decided: (R1) ansi.Apply, the only emitter of escape sequences, emits for every character other than a line feed exactly one opener carrying its style parameter, the character's own previous openers, the character and a reset, and emits line feeds bare: the style is added to each character's own unit and to nothing else; (R2) every function of packages ansi and style that returns a string returns normal form when its text parameters are in normal form: an automaton (closed, opened, lettered) is run over what each returned value is concatenated from — lexed constants, pieces of a match of ansi.expand (match[0] a whole unit, match[1] its openers, match[2] its character, a line feed only where the path knows it is none), parameters, slices of matches, results of the functions themselves and of form-preserving library calls (Repeat, Join/Split at line feeds, cuts at the index of a line feed, trimming of blanks) — with loop accumulators treated coinductively; (R3) outside package ansi no instruction looks inside a string that can carry styling (forward value flow from every ansi.Apply result to string slicing, indexing, conversion to runes or bytes, ranging, and character-editing library calls); (R4) escape bytes occur only in constants of package ansi. Together: every string the styling layer hands out is in normal form by induction over the calls. NOT decided: the terminal's interpretation of SGR parameters, that the style parameter is a valid SGR parameter (C01.R3 decides that it is built from constants and validated colours), and content preservation by the layout functions (C13).",
+			Explanation: "A typestate of strings, decided statically. A styled text is in normal form when it consists of plain characters and line feeds with no attribute active, and of units `openers, one character, reset`; in such a text every character carries exactly the attributes of its own unit and nothing is active at a line feed or at the end, and concatenating, repeating, splitting or cutting normal-form texts at line feeds keeps the form. Decided: (R1) ansi.Apply, the only emitter of escape sequences, emits for every character other than a line feed exactly one opener carrying its style parameter, the character's own previous openers, the character and a reset, and emits line feeds bare: the style is added to each character's own unit and to nothing else; (R2) every function of packages ansi and style that returns a string returns normal form when its text parameters are in normal form: an automaton (closed, opened, lettered) is run over what each returned value is concatenated from — lexed constants, pieces of a match of ansi.expand (match[0] a whole unit, match[1] its openers, match[2] its character, a line feed only where the path knows it is none), parameters, slices of matches, results of the functions themselves and of form-preserving library calls (Repeat, Join/Split at line feeds, cuts at the index of a line feed, trimming of blanks) — with loop accumulators treated coinductively; (R3) outside package ansi no instruction looks inside a string that can carry styling (forward value flow from every ansi.Apply result to string slicing, indexing, conversion to runes or bytes, ranging, and character-editing library calls); (R4) escape bytes occur only in constants of package ansi. Together: every string the styling layer hands out is in normal form by induction over the calls. (R5) every style handed to ansi.Apply, directly or through the functions of the style layer that pass a parameter on as the start of it, starts with a constant SGR code that is neither empty nor the reset code (ESC[m and ESC[0m switch every attribute off). NOT decided: the terminal's interpretation of SGR parameters, that the style parameter is a valid SGR parameter (C01.R3 decides that it is built from constants and validated colours), and content preservation by the layout functions (C13).",
 			Assumptions: []string{"regexp semantics of ansi.expand's pattern (checked in C13.R0): a match is openers, one character, an optional reset", "string parameters of the ansi and style functions are texts in normal form or plain texts (by induction: R3 shows nothing else can be made outside)", "a terminal applies ESC[0m as 'all attributes off'"},
 			Rules: []Rule{
 				{ID: "C14.R1", Title: "ansi.Apply adds its style to each character's own unit and closes it", Floor: 3, Run: c14R1},
 				{ID: "C14.R2", Title: "the layout and style functions return normal form for normal form", Floor: 25, Run: c14R2},
 				{ID: "C14.R3", Title: "nobody outside package ansi looks inside a styled text", Floor: 1, Run: c14R3},
 				{ID: "C14.R4", Title: "escape bytes occur in constants of package ansi only", Floor: 1, Run: c14R4},
+				{ID: "C14.R5", Title: "every style handed to ansi.Apply starts with a constant, non-resetting SGR code", Floor: 6, Run: c14R5},
 			},
 		}
 	}
@@ -80,11 +81,12 @@ type nfa struct {
 	why          map[ssa.Value]string
 	sgrParams    map[*ssa.Parameter]bool // parameters used as SGR parameter text
 	busy         map[ssa.Value]bool
+	sgrLead      map[*ssa.Parameter]bool // ... and directly behind ESC[
 	cleanGlobals map[*ssa.Global]bool
 }
 
 func newNFA(P *Program) *nfa {
-	return &nfa{P: P, state: map[ssa.Value]int{}, why: map[ssa.Value]string{}, sgrParams: map[*ssa.Parameter]bool{}, busy: map[ssa.Value]bool{}, cleanGlobals: map[*ssa.Global]bool{}}
+	return &nfa{P: P, state: map[ssa.Value]int{}, why: map[ssa.Value]string{}, sgrParams: map[*ssa.Parameter]bool{}, busy: map[ssa.Value]bool{}, sgrLead: map[*ssa.Parameter]bool{}, cleanGlobals: map[*ssa.Global]bool{}}
 }
 
 func inAnsi(fn *ssa.Function) bool {
@@ -267,6 +269,9 @@ func (a *nfa) lex(ls []ssa.Value, at *ssa.BasicBlock) []sgEvent {
 			if p, ok := unwrapLoad(l).(*ssa.Parameter); ok {
 				params = append(params, p)
 				a.sgrParams[p] = true
+				if collected.Len() == 0 {
+					a.sgrLead[p] = true // directly behind ESC[: the leading code
+				}
 				collected.WriteString("<" + p.Name() + ">")
 				continue
 			}
